@@ -19,6 +19,8 @@ def run(tier, seed):
     return opscheck.run_property(
         "C08", tier, seed, clauses_for=lambda cfg: CLAUSES, n_quick=5, n_thorough=40,
         gen_kw=[{}], generator=gen, observe=symdrive.observe, classes=symdrive.PAIR_KINDS,
+        sig_extra=lambda cl, e, v: {"pair": e["cfg"]["label"].split(":")[0],
+                                    **({"conv": e["cfg"]["conv"]} if cl == "C08_Solve" else {})},
         rule="pairs (small grid, image under E): 9 extrusions (Grid1D-2D-3D at every position, CylindricalGrid1D to "
              "CylindricalGrid2D / PolarGrid2D, CylindricalGrid2D / PolarGrid2D to CylindricalGrid3D; new axis with 1-2 "
              "cells, no-flux or periodic), all axis permutations and mirrors of Cartesian grids; for each pair the "
